@@ -241,6 +241,16 @@ func bigOfKind(kind, which string) (stick.Value, error) {
 			return int(math.MaxInt64), nil
 		}
 		return int(math.MinInt64), nil
+	case "float32", "float64":
+		// an integral value written out, e.g. big:float32:33554448 (exactly representable: a multiple of 4 below 2^26)
+		f, err := strconv.ParseFloat(which, 64)
+		if err != nil {
+			return nil, err
+		}
+		if kind == "float32" {
+			return float32(f), nil
+		}
+		return f, nil
 	}
 	return nil, fmt.Errorf("no big value for %q", kind)
 }
@@ -496,6 +506,8 @@ func fixtureByID(id string) (stick.Value, error) {
 				m[e[0]] = e[1]
 			}
 			return m, nil
+		case "us":
+			return map[uint64]string{math.MaxUint64: "x", 3: "three"}, nil
 		case "cs":
 			m := map[colour]int{}
 			for _, e := range kv() {
@@ -599,6 +611,8 @@ func fixtureByID(id string) (stick.Value, error) {
 			in = customSafe{in}
 		}
 		return in, nil
+	case "embnilsafe":
+		return struct{ stick.SafeValue }{}, nil
 	case "embnilmethod":
 		return embNilOuter{Own: "own"}, nil
 	case "embnilstringer":
